@@ -2,7 +2,10 @@
 #![cfg(cstree_verif)]
 #![allow(missing_docs)]
 
-use std::sync::atomic::{AtomicU32, Ordering};
+use std::sync::{
+    atomic::{AtomicU32, Ordering},
+    RwLock,
+};
 
 /// Mask applied to every 32-bit child hash of a green node (default: all bits, i.e. no change).
 /// Lowering it forces hash collisions between different nodes.
@@ -14,4 +17,52 @@ pub fn set_hash_mask(mask: u32) {
 
 pub fn hash_mask() -> u32 {
     HASH_MASK.load(Ordering::SeqCst)
+}
+
+/// Synchronisation-relevant steps of the red tree, reported to an installed observer.
+/// `*Lock` events are reported BEFORE the lock is requested, `*Unlock` events AFTER it was released;
+/// `Rmw` BEFORE the read-modify-write on the tree's reference count; `Alloc` after a `NodeData` block
+/// was allocated, `Free` before it is freed.
+#[derive(Debug, Clone, Copy, PartialEq, Eq)]
+pub enum Event {
+    ReadLock { node: usize, slot: usize },
+    ReadUnlock { node: usize, slot: usize },
+    WriteLock { node: usize, slot: usize },
+    WriteUnlock { node: usize, slot: usize },
+    DataLock { node: usize, write: bool },
+    DataUnlock { node: usize, write: bool },
+    Rmw { delta: i32 },
+    Alloc { ptr: usize },
+    Free { ptr: usize },
+}
+
+static OBSERVER: RwLock<Option<fn(Event)>> = RwLock::new(None);
+
+/// Installs (or removes) the observer. It is called on the thread that performs the step.
+pub fn set_observer(f: Option<fn(Event)>) {
+    *OBSERVER.write().unwrap() = f;
+}
+
+#[inline]
+pub fn point(event: Event) {
+    let f = *OBSERVER.read().unwrap();
+    if let Some(f) = f {
+        f(event);
+    }
+}
+
+/// Reports `enter` now and `exit` when dropped. Declare it BEFORE the lock guard it describes, so that it is
+/// dropped after the guard.
+#[derive(Debug)]
+pub struct Scope(Event);
+
+pub fn scope(enter: Event, exit: Event) -> Scope {
+    point(enter);
+    Scope(exit)
+}
+
+impl Drop for Scope {
+    fn drop(&mut self) {
+        point(self.0);
+    }
 }
